@@ -56,6 +56,7 @@ func (s *recStatter) add(m, n string, i int64, d time.Duration, rate float32, ta
 }
 
 var errStatter = fmt.Errorf("statter: send failed")
+
 func (s *recStatter) Inc(n string, v int64, r float32, t ...cstatsd.Tag) error {
 	return s.add("Inc", n, v, 0, r, t)
 }
